@@ -122,27 +122,18 @@ func closeOnceRule(c *Ctx, rule string, rels []string, floorN int) {
 			nSites++
 			base, f := baseOfFieldValue(callCommon(cl).Args[0])
 			cons := fmt.Sprintf("close:%s.%s@%s", typeNameOfAP(cl), f.Name(), name)
-			idiom := ""
-			// K1: won CAS / Swap-compare on an atomic of the same object
-			for k, v := range mf.At(cl) {
-				if k.op == token.ILLEGAL && v {
-					if call, ok := k.x.(*ssa.Call); ok && strings.HasSuffix(calleeID(call), ".CompareAndSwap") && sameRootAP(apString(call.Call.Args[0]), base) {
-						idiom = "K1 (won CompareAndSwap)"
-					}
-				}
-				if k.op == token.EQL && k.y != nil && !v {
-					for _, s := range []ssa.Value{k.x, k.y} {
-						if call, ok := s.(*ssa.Call); ok && strings.HasSuffix(calleeID(call), ".Swap") && sameRootAP(apString(call.Call.Args[0]), base) {
-							idiom = "K1 (Swap returned a different previous state)"
-						}
-					}
-				}
-				if k.op == token.EQL && k.y != nil && v {
-					// oldState == created  where oldState is the Swap result: a sub-case of the winner
-					for _, s := range []ssa.Value{k.x, k.y} {
-						if call, ok := s.(*ssa.Call); ok && strings.HasSuffix(calleeID(call), ".Swap") && sameRootAP(apString(call.Call.Args[0]), base) {
-							if _, isC := constInt(otherOf(k, s)); isC {
-								idiom = "K1 (Swap result identifies the winner)"
+			idiom := k1Election(mf.At(cl), base)
+			// the closes of a local helper that its owner calls once, after winning the election
+			if idiom == "" && fn.Parent() == nil {
+				if owner := P.OwnerOf(fn); owner != nil && owner != fn {
+					if edges := P.Callers(fn); len(edges) == 1 && edges[0].Site != nil && edges[0].Caller.Func.Blocks != nil {
+						if site, ok := edges[0].Site.(*ssa.Call); ok && len(site.Call.Args) > 0 && len(fn.Params) > 0 {
+							// the helper's receiver is the caller's object
+							if root, _ := accessPath(callCommon(cl).Args[0]); lookThrough(root) == ssa.Value(fn.Params[0]) {
+								cf := edges[0].Caller.Func
+								if id := k1Election(ComputeMustFacts(cf).At(site), apString(lookThrough(site.Call.Args[0]))); id != "" {
+									idiom = id + ", established by the owner " + cf.Name() + " before it calls this helper"
+								}
 							}
 						}
 					}
@@ -1227,4 +1218,78 @@ func c16R9(c *Ctx) {
 		fs.report(c, rule, name, []string{"joined"}, P.Pos(fn.Pos()), "initiate joined before the mutex is taken again")
 		c.Floor(rule, "re-acquisitions of lifecycleMu after the swap on paths of Close", n, 1)
 	}
+}
+
+// k1Election: the facts that hold at a point say that this caller won an election on an atomic of the
+// object rooted at base: a CompareAndSwap found true, or the result of a Swap found different from (or
+// identified by) a constant state. The Swap may sit in a local helper that returns its result unchanged
+// (markClosed() returns u.state.Swap(closed)).
+func k1Election(facts map[atomKey]bool, base string) string {
+	isSwap := func(s ssa.Value) bool {
+		call, ok := s.(*ssa.Call)
+		if !ok {
+			return false
+		}
+		if strings.HasSuffix(calleeID(call), ".Swap") && len(call.Call.Args) > 0 && sameRootAP(apString(call.Call.Args[0]), base) {
+			return true
+		}
+		// a helper of the same object that hands back the Swap result
+		g := staticCallee(&call.Call)
+		if g == nil || !InModule(g) || len(g.Blocks) == 0 || ast.IsExported(g.Name()) || len(call.Call.Args) == 0 || len(g.Params) == 0 {
+			return false
+		}
+		if !sameRootAP(apString(lookThrough(call.Call.Args[0])), base) || g.Signature.Results().Len() != 1 {
+			return false
+		}
+		n := 0
+		for _, b := range g.Blocks {
+			r, ok := b.Instrs[len(b.Instrs)-1].(*ssa.Return)
+			if !ok {
+				continue
+			}
+			n++
+			rv := lookThrough(r.Results[0])
+			// a defer-spilled result: the single value stored into the result slot
+			if u, isLoad := rv.(*ssa.UnOp); isLoad && u.Op == token.MUL {
+				if a, isAlloc := u.X.(*ssa.Alloc); isAlloc {
+					if sv := singleStore(a); sv != nil {
+						rv = strip(sv)
+					}
+				}
+			}
+			sc, ok := rv.(*ssa.Call)
+			if !ok || !strings.HasSuffix(calleeID(sc), ".Swap") || len(sc.Call.Args) == 0 {
+				return false
+			}
+			if root, _ := accessPath(sc.Call.Args[0]); lookThrough(root) != ssa.Value(g.Params[0]) {
+				return false
+			}
+		}
+		return n > 0
+	}
+	for k, v := range facts {
+		if k.op == token.ILLEGAL && v {
+			if call, ok := k.x.(*ssa.Call); ok && strings.HasSuffix(calleeID(call), ".CompareAndSwap") && sameRootAP(apString(call.Call.Args[0]), base) {
+				return "K1 (won CompareAndSwap)"
+			}
+		}
+		if k.op == token.EQL && k.y != nil && !v {
+			for _, s := range []ssa.Value{k.x, k.y} {
+				if isSwap(s) {
+					return "K1 (Swap returned a different previous state)"
+				}
+			}
+		}
+		if k.op == token.EQL && k.y != nil && v {
+			// oldState == created  where oldState is the Swap result: a sub-case of the winner
+			for _, s := range []ssa.Value{k.x, k.y} {
+				if isSwap(s) {
+					if _, isC := constInt(otherOf(k, s)); isC {
+						return "K1 (Swap result identifies the winner)"
+					}
+				}
+			}
+		}
+	}
+	return ""
 }
